@@ -1,0 +1,9 @@
+//go:build !verif
+
+package priority
+
+type verifState struct{}
+
+func (dsc *Discipline[Type]) verifBind() {}
+
+func (dsc *Discipline[Type]) verifAt(string, uint, bool) {}
